@@ -58,14 +58,16 @@ type pkgInfo struct {
 }
 
 type imp struct {
-	repo    string
-	fset    *token.FileSet
-	std     types.ImporterFrom
-	pkgs    map[string]*pkgInfo
-	loading map[string]bool
-	fake    map[string]*types.Package
-	notes   []string
-	ctx     build.Context
+	repo     string
+	fset     *token.FileSet
+	std      types.ImporterFrom
+	pkgs     map[string]*pkgInfo
+	loading  map[string]bool
+	fake     map[string]*types.Package
+	notes    []string
+	ctx      build.Context
+	mods     map[string]string
+	modcache string
 }
 
 func (im *imp) Import(path string) (*types.Package, error) { return im.ImportFrom(path, im.repo, 0) }
@@ -87,9 +89,12 @@ func (im *imp) ImportFrom(path, dir string, mode types.ImportMode) (*types.Packa
 			im.notes = append(im.notes, "std import failed: "+path+": "+err.Error())
 		}
 	} else {
-		// third party: try the source importer (module cache through go list), fall back to an empty package
-		if p, err := im.std.ImportFrom(path, im.repo, 0); err == nil {
-			return p, nil
+		// third party: straight from the module cache (version from <repo>/go.mod), type-checked from source like
+		// the packages of the repository; no `go list`, no network
+		if dir := im.modDir(path); dir != "" {
+			if p := im.loadDir(path, dir); p != nil {
+				return p.pkg, nil
+			}
 		}
 	}
 	if p, ok := im.fake[path]; ok {
@@ -114,9 +119,65 @@ func (im *imp) load(path string) *pkgInfo {
 	if im.loading[path] {
 		return nil
 	}
+	dir := filepath.Join(im.repo, strings.TrimPrefix(strings.TrimPrefix(path, modPath), "/"))
+	return im.loadDir(path, dir)
+}
+
+// escape a module path the way the module cache does (upper case letter X -> !x)
+func escapeMod(s string) string {
+	var b strings.Builder
+	for _, r := range s {
+		if r >= 'A' && r <= 'Z' {
+			b.WriteByte('!')
+			b.WriteRune(r + 'a' - 'A')
+		} else {
+			b.WriteRune(r)
+		}
+	}
+	return b.String()
+}
+
+func (im *imp) modDir(path string) string {
+	if im.mods == nil {
+		im.mods = map[string]string{}
+		data, _ := os.ReadFile(filepath.Join(im.repo, "go.mod"))
+		for _, l := range strings.Split(string(data), "\n") {
+			f := strings.Fields(strings.TrimSpace(strings.TrimPrefix(strings.TrimSpace(l), "require")))
+			if len(f) >= 2 && strings.Contains(f[0], ".") && strings.HasPrefix(f[1], "v") {
+				im.mods[f[0]] = f[1]
+			}
+		}
+		im.modcache = os.Getenv("GOMODCACHE")
+		if im.modcache == "" {
+			gp := os.Getenv("GOPATH")
+			if gp == "" {
+				home, _ := os.UserHomeDir()
+				gp = filepath.Join(home, "go")
+			}
+			im.modcache = filepath.Join(strings.Split(gp, string(os.PathListSeparator))[0], "pkg", "mod")
+		}
+	}
+	best := ""
+	for m := range im.mods {
+		if (path == m || strings.HasPrefix(path, m+"/")) && len(m) > len(best) {
+			best = m
+		}
+	}
+	if best == "" {
+		return ""
+	}
+	return filepath.Join(im.modcache, escapeMod(best)+"@"+im.mods[best], strings.TrimPrefix(strings.TrimPrefix(path, best), "/"))
+}
+
+func (im *imp) loadDir(path, dir string) *pkgInfo {
+	if p, ok := im.pkgs[path]; ok {
+		return p
+	}
+	if im.loading[path] {
+		return nil
+	}
 	im.loading[path] = true
 	defer delete(im.loading, path)
-	dir := filepath.Join(im.repo, strings.TrimPrefix(strings.TrimPrefix(path, modPath), "/"))
 	ents, err := os.ReadDir(dir)
 	if err != nil {
 		return nil
